@@ -57,7 +57,7 @@ theorem krel : KRel (EvMono (σ := σ)) where
   active _ _ := of_frame rfl
   shared _ _ := of_frame rfl
   setProc _ _ _ := of_frame rfl
-  schedule _ _ _ _ _ := of_frame rfl
+  schedule _ _ _ _ _ _ := of_frame rfl
   newEv s r _ := of_push s _ r rfl
   newLabelled s r _ := of_push s _ _ rfl
   newReq s r _ _ _ := of_push s _ _ rfl
@@ -66,7 +66,7 @@ theorem krel : KRel (EvMono (σ := σ)) where
   bumpCount s e := of_setEv s e _ rfl (fun h => h)
   setUsage s e := of_setEv s e _ rfl (fun h => h)
   eraseCb s e cb := of_setEv s e _ rfl (fun h => by simp [h])
-  addCb s e cb := by
+  addCb s e cb _ := by
     unfold KState.addCb
     exact of_setEv s e _ rfl (fun h => by simp [h])
   eraseUser _ _ _ := of_frame rfl
